@@ -374,6 +374,9 @@ fn c04_input_offsets_fixed_kinds() {
         assert!(at32(&buf, r.contract_balance_root_offset(), &br), "C04 contract input balance root offset");
         assert!(at32(&buf, r.contract_state_root_offset(), &sr), "C04 contract input state root offset");
         assert!(at32(&buf, r.contract_id_offset(), &cid), "C04 contract input contract id offset");
+        let tp = r.tx_pointer_offset().unwrap();
+        let mut pb = [0u8; 16]; let mut o: &mut [u8] = &mut pb[..]; x.tx_pointer().unwrap().encode(&mut o).unwrap();
+        let mut i = 0; while i < 16 { assert!(buf[tp + i] == pb[i], "C04 contract input tx pointer offset"); i += 1; }
         assert!(r.owner_offset().is_none() && r.asset_id_offset().is_none());
     } else {
         let (s, rc, nn): ([u8; 32], [u8; 32], [u8; 32]) = (kani::any(), kani::any(), kani::any());
@@ -385,4 +388,24 @@ fn c04_input_offsets_fixed_kinds() {
         assert!(at32(&buf, r.message_nonce_offset(), &nn), "C04 message nonce offset");
         assert!(r.utxo_id_offset().is_none() && r.contract_id_offset().is_none());
     }
+}
+
+//@ props=C03 tier=quick class=bounded(vectors=1) timeout=1500 -- Input::prepare_sign for the message predicate kinds (MessageCoinPredicate, MessageDataPredicate; one-byte vectors): predicate gas used zeroed, every other field unchanged
+#[kani::proof]
+#[kani::unwind(40)]
+fn c03_input_prepare_sign_message_predicates() {
+    let with_data: bool = kani::any();
+    let (p, d): (u8, u8) = (kani::any(), kani::any());
+    let x = if with_data {
+        Input::message_data_predicate(b32().into(), b32().into(), kani::any(), b32().into(), kani::any(), vec![d], vec![p], Vec::new())
+    } else {
+        Input::message_coin_predicate(b32().into(), b32().into(), kani::any(), b32().into(), kani::any(), vec![p], Vec::new())
+    };
+    let mut y = x.clone();
+    y.prepare_sign();
+    assert!(y.predicate_gas_used() == Some(0), "C03 message predicate inputs: predicate gas used is zeroed");
+    assert!(y.is_message_data_predicate() == with_data && y.is_message_coin_predicate() == !with_data);
+    assert!(y.sender() == x.sender() && y.recipient() == x.recipient() && y.amount() == x.amount() && y.nonce() == x.nonce()
+            && same(y.input_data(), x.input_data()) && same(y.input_predicate(), x.input_predicate()) && same(y.input_predicate_data(), x.input_predicate_data()),
+            "C03 every other field is unchanged");
 }
